@@ -58,6 +58,16 @@ func moduleFile(k int, name string, deps [][2]interface{}, depNames []string, pu
 		body = append(body, ret(bin("+", bin("*", vr("total"), il(10)), vr("steps"))))
 		st = append(st, fn("Sum", nil, []Type{TInt}, body...))
 	}
+	// top-level definitions whose initialisers call k+2 distinct private functions without effects (also in files
+	// reached along several paths: running them once per path changes nothing)
+	{
+		total := Expr(il(0))
+		for j := 1; j <= k+2; j++ {
+			st = append(st, fn(fmt.Sprintf("pure%d", j), nil, []Type{TInt}, ret(il(int64(j*(k+1))))), def(fmt.Sprintf("pre%d", j), call(fmt.Sprintf("pure%d", j))))
+			total = bin("+", total, vr(fmt.Sprintf("pre%d", j)))
+		}
+		st = append(st, fn("Pre", nil, []Type{TInt}, ret(total)))
+	}
 	// cross-file calls
 	sum := Expr(il(0))
 	for _, d := range deps {
@@ -215,7 +225,7 @@ func (s c09Shape) build(salts map[int]int) *Program {
 			pr(sl(a), Call{Alias: a, Fn: "Get"}, Call{Alias: a, Fn: "Deep"}),
 			pr(sl(a), Call{Alias: a, Fn: "Bump", Args: []Expr{il(5)}}, Call{Alias: a, Fn: "Label", Args: []Expr{sl("x y")}}),
 			pr(sl(a), Call{Alias: a, Fn: "Get"}),
-			pr(sl(a), Call{Alias: a, Fn: "Both"}, Call{Alias: a, Fn: "Sum"}),
+			pr(sl(a), Call{Alias: a, Fn: "Both"}, Call{Alias: a, Fn: "Sum"}, Call{Alias: a, Fn: "Pre"}),
 		)
 	}
 	if s.std[0] {
@@ -445,6 +455,25 @@ func checkC09(c *Check) {
 				}
 			}
 		}
+	}
+	// two files that differ in comments, blank lines and indentation only (their tokens are equal): still two files
+	{
+		body := func(comment string, indent string) *File {
+			return &File{Stmts: []Stmt{RawStmt{"// " + comment}, def("stock", il(0)), RawStmt{"// " + comment + " again"},
+				fn("Add", []Param{{"n", TInt}}, []Type{TInt}, RawStmt{indent + "// inside " + comment}, OpAssign{"stock", "+", vr("n")}, ret(vr("stock"))),
+				fn("Stock", nil, []Type{TInt}, ret(vr("stock")))}}
+		}
+		apples, pears := body("apples", ""), body("pears are kept in another file", "\t\t")
+		apples.Name, pears.Name = "apples.tsh", "pears.tsh"
+		mainF := &File{Name: "main.tsh", Imports: []Import{{Alias: "a", Path: "apples.tsh"}, {Alias: "p", Path: "pears.tsh"}}, Stmts: []Stmt{
+			pr(Call{Alias: "a", Fn: "Add", Args: []Expr{il(7)}}, Call{Alias: "p", Fn: "Add", Args: []Expr{il(1)}}), pr(Call{Alias: "a", Fn: "Stock"}, Call{Alias: "p", Fn: "Stock"}),
+			pr(Call{Alias: "p", Fn: "Add", Args: []Expr{il(10)}}), pr(Call{Alias: "a", Fn: "Stock"}, Call{Alias: "p", Fn: "Stock"})}}
+		cases = append(cases, mcase{"twin-tokens/comments-and-layout", &Program{Files: []*File{mainF, apples, pears}}})
+		// the same tokens with other blanks: "1"+"2" here, 1+2 there would be other tokens; here only the spelling of blanks differs
+		q1 := &File{Name: "q1.tsh", Stmts: []Stmt{def("level", il(1)), fn("Up", nil, []Type{TInt}, IncDec{"level", true}, ret(vr("level")))}}
+		q2 := &File{Name: "sub/q2.tsh", Stmts: []Stmt{RawStmt{"//"}, def("level", il(1)), RawStmt{"//"}, RawStmt{"// q2"}, fn("Up", nil, []Type{TInt}, IncDec{"level", true}, ret(vr("level")))}}
+		main2 := &File{Name: "main.tsh", Imports: []Import{{Alias: "x", Path: "q1.tsh"}, {Alias: "y", Path: "sub/q2.tsh"}}, Stmts: []Stmt{pr(Call{Alias: "x", Fn: "Up"}, Call{Alias: "x", Fn: "Up"}, Call{Alias: "y", Fn: "Up"})}}
+		cases = append(cases, mcase{"twin-tokens/blank-lines", &Program{Files: []*File{main2, q1, q2}}})
 	}
 	// random acyclic import graphs over 3-6 files with the module content above (every file beyond main is reached;
 	// files reached along several paths are the definition-only kind)
